@@ -5,6 +5,7 @@ package main
 import (
 	"fmt"
 	"go/token"
+	"go/types"
 	"strings"
 
 	"golang.org/x/tools/go/ssa"
@@ -35,6 +36,44 @@ func runC07(c *Ctx) {
 	c07NonEmptyFlag(c, m)
 	c07WeekKey(c, m)
 	c07CacheScope(c, m)
+	c07LocalComplete(c, m)
+}
+
+// c07LocalComplete: nothing is removed from the aggregate once it is folded — the local report
+// keeps every counter of every file. A delete / clear / maps.DeleteFunc in createReport may only
+// work on a map that createReport itself made (a filtered copy), never on a map reached through
+// the report's programs (a struct copy `x := *p` shares p's maps).
+func c07LocalComplete(c *Ctx, m *Module) {
+	r := c.R
+	cr := m.Func("internal/upload", "uploader.createReport")
+	fns := append([]*ssa.Function{cr}, allAnon(cr)...)
+	for _, fn := range fns {
+		for _, cs := range callsIn(fn) {
+			cn := calleeName(cs.Common())
+			if cn != "builtin:delete" && cn != "builtin:clear" && !strings.HasPrefix(cn, "maps.DeleteFunc") && !strings.HasPrefix(cn, "maps.Clear") {
+				continue
+			}
+			mv := cs.Common().Args[0]
+			if _, isMap := mv.Type().Underlying().(*types.Map); !isMap {
+				continue
+			}
+			mk := mapOrigin(deref(mv))
+			if mk == nil {
+				mk = mapOrigin(mv)
+			}
+			r.Check("C07.accumulate", "createReport/"+cn+" only on a map made here", m.Pos(cs.Pos()), mk != nil,
+				"entries may be removed only from a map this function created (a filtered copy); removing from "+shortDesc(describe(mv))+" can remove them from the aggregate that becomes the local report")
+		}
+	}
+}
+
+func allAnon(f *ssa.Function) []*ssa.Function {
+	var out []*ssa.Function
+	for _, a := range f.AnonFuncs {
+		out = append(out, a)
+		out = append(out, allAnon(a)...)
+	}
+	return out
 }
 
 func c07Delete(c *Ctx, m *Module) {
